@@ -171,10 +171,10 @@ Proof.
   rewrite send_qp_S. rewrite (need_recode_ok m b len Hw). cbn [bind].
   destruct (Nat.eqb_spec len 0) as [|Hl]; [eexists; split; [reflexivity|apply ent_done_nil; exact Hg]|]. cbv zeta.
   set (W := sub m b len). set (rf := nr_fun W flags0 0 false).
-  destruct (qp_header_spec m helo ext8 b len Hw ltac:(lia) Hhelo D0 (f8 rf || fline rf) st Hg) as (rh & Erh & Hd). rewrite Erh.
+  destruct (qp_header_spec m helo ext8 b len Hw ltac:(lia) Hhelo D0 (f8 rf || fline rf) st Hg) as (h0 & ct & cenc & rh & _ & Erh & Hd). rewrite Erh.
   destruct rh as [[h mp] st1|why st1]; cbn [bindR].
   2: { eexists. split; [reflexivity|]. cbn [hdr_done] in Hd. subst st1. exists []. apply good_good0. exact Hg. }
-  destruct Hd as (Hh & (ls & ll & Emp) & Hbnd & _ & H8 & Hlr & t & Gt & Ht & _). fold W in Hlr, Ht.
+  destruct Hd as (_ & Hh & Emp & Hbnd & _ & H8 & Hlr & t & Gt & Ht & _). fold W in Hlr, Ht.
   destruct (Nat.ltb_spec len h) as [|_]; [lia|].
   assert (Hbody : exists r, (if f8 rf || fline rf then liftS (recode_qp m (b + h) (len - h) st1)
                              else liftS (send_plain m (b + h) (len - h) st1)) = Ok r /\ ent_ok W r).
@@ -185,7 +185,7 @@ Proof.
   rewrite rdn_ok by exact Hbin. cbn [bind]. set (bnd := sub m bs bl).
   assert (Hblen : bl = length bnd) by (unfold bnd; rewrite sub_length by lia; reflexivity).
   assert (Hbok : bnd_ok bnd).
-  { split; [|rewrite <- Hblen; lia]. destruct (is_multipart_bchars m ls ll bs bl Emp) as (q & Hq).
+  { split; [|rewrite <- Hblen; lia]. destruct (is_multipart_bchars m _ _ bs bl Emp) as (q & Hq).
     apply Forall_sub_at; [exact Hbin|]. intros k Hk. apply (bchar_ok_range q). apply Hq. exact Hk. }
   destruct (find_boundary_ok m (b + h) (len - h) bnd) as (nextoff & Efb & Hfb); [lia|]. rewrite Efb. cbn [bind].
   destruct (Nat.eqb_spec nextoff 0) as [Hz|Hnz].
